@@ -101,11 +101,11 @@ end SE23T
 
 namespace SGal3T
 theorem fillE_re (t : SO3T (Dual K)) : (fillE t).re = fillE t.vre := by
-  have hc : Scalar.lt (t.v.sqNorm * t.v.sqNorm) (Scalar.eps : Dual K) =
-      Scalar.lt (t.vre.v.sqNorm * t.vre.v.sqNorm) (Scalar.eps : K) := rfl
+  have hc : Scalar.lt (t.v.sqNorm * t.v.sqNorm * t.v.sqNorm * t.v.sqNorm) (Scalar.eps : Dual K) =
+      Scalar.lt (t.vre.v.sqNorm * t.vre.v.sqNorm * t.vre.v.sqNorm * t.vre.v.sqNorm) (Scalar.eps : K) := rfl
   unfold fillE
   simp only [hc]
-  cases Scalar.lt (t.vre.v.sqNorm * t.vre.v.sqNorm) (Scalar.eps : K) <;> rfl
+  cases Scalar.lt (t.vre.v.sqNorm * t.vre.v.sqNorm * t.vre.v.sqNorm * t.vre.v.sqNorm) (Scalar.eps : K) <;> rfl
 end SGal3T
 
 namespace SGal3
